@@ -205,6 +205,24 @@ def c13(ctx, rep):
             if want != rc:
                 rep.violation("exit status %s, the model of main.go's stage logic gives %d for the observed stage outcomes %s" % (rc, want, l.split()[0]),
                               dict(payload, stages=l.split()[0]), found=(rc == 0))
+    # the -o file: what is written to a file that already exists (and is longer) is the parser, nothing else
+    nfile = 0
+    for t in valid[: ctx.q(8, 60)]:
+        data = t.encode("utf-8", "surrogatepass")
+        rc0, out0, err0 = run_tool(pigeon, data, [], tmo)
+        if rc0 != 0:
+            continue
+        path = ctx.sc.path("c13out", "parser_%d.go" % nfile)
+        with open(path, "wb") as f:
+            f.write(b"// stale content\n" * 60000)
+        rc1, out1, err1 = run_tool(pigeon, data, ["-o", path], tmo)
+        nfile += 1
+        got = open(path, "rb").read()
+        if rc1 != 0 or got != out0:
+            rep.violation("pigeon -o over an existing file: exit status %s, the file holds %d bytes, the parser written to standard output %d" % (rc1, len(got), len(out0)),
+                          {"grammar_text": t[:3000], "flags": ["-o", "<existing longer file>"], "stderr": err1[-1000:],
+                           "how": "create a large file, run pigeon -o on it, compare with the output of pigeon without -o"}, found=True)
+    counts["output_file_overwrites"] = nfile
     rep.cov["evaluations"] = len(work)
     rep.cov["distinct_nontrivial"] = len({hashlib.sha1(w[1]).hexdigest() + " ".join(w[2]) for w in work})
     rep.cov["distribution"] = dict(counts)
